@@ -235,7 +235,16 @@ func r032(c *Ctx) {
 			}
 			nreg++
 			notDraining := false
-			for _, f := range intFacts(in, matchFieldLoad(stateF)) {
+			// the test must read t.state directly while this same lock hold is in effect (a getter that takes and
+			// releases the lock before the registration is a check-then-act race)
+			for _, f := range intFacts(in, func(v ssa.Value) bool {
+				u, ok := v.(*ssa.UnOp)
+				if !ok || u.Op != token.MUL {
+					return false
+				}
+				fv, _, ok := fieldOfAddr(u.X)
+				return ok && fv == stateF && li.holds(u, lock, modeW)
+			}) {
 				if f.op == token.NEQ && f.k == draining {
 					notDraining = true
 				}
@@ -359,13 +368,13 @@ func r033(c *Ctx) {
 			if _, ok := cs.instr.(*ssa.Call); !ok {
 				continue
 			}
-			if f, _, ok := fieldLoad(cs.common().Args[0]); ok {
+			if f, _, ok := fieldLoad(resolve(cs.common().Args[0])); ok {
 				to := resolve(cs.common().Args[1])
 				// the only admissible guard is a nil test of that same slot
 				guardsOK := true
 				for _, ce := range dominatingConds(cs.instr.Block()) {
 					cm, ok := asCmp(ce.cond, ce.taken)
-					if !ok || cm.op != token.NEQ || !((isLoadOfField(cm.x, f) && isNilConst(cm.y)) || (isLoadOfField(cm.y, f) && isNilConst(cm.x))) {
+					if !ok || cm.op != token.NEQ || !((isLoadOfField(resolve(cm.x), f) && isNilConst(cm.y)) || (isLoadOfField(resolve(cm.y), f) && isNilConst(cm.x))) {
 						guardsOK = false
 					}
 				}
